@@ -13,6 +13,16 @@
        -> V sigma' mean'[n] D'[n] vn'[n] normv' pc'[n] ps'[n] cov'[n*n] [x[n] y[n]]
           (vd_update; cov' = vd_cov D' (normv' vn'); x, y = vd_sample on the PRE state with the normal draws z)
    H n alpha beta L[n*n] v[n]   -> H L'[n*n]  |  H EXC                  (chol_update)
+   NI n big p0len p0[p0len] start[n] k (val pt[n])*k
+       -> NI (val pt[n])*(n+1) B bestval bplen bestpt[bplen] L nlook miss (pt[n])*nlook
+          (sd_init; the objective is the TABLE of the implementation's own evaluations (k entries): a point the model asks for that
+           the implementation did not evaluate sets miss = 1; the points the model asked for are listed in order)
+   NS n (val pt[n])*(n+1) bestval bplen bestpt[bplen] k (val pt[n])*k
+       -> NS (val pt[n])*(n+1) B bestval bplen bestpt[bplen] L nlook miss (pt[n])*nlook          (sd_step, same oracle convention)
+   X n lambda mu kind a b counter mean[n] var[n] (z[n])*lambda (fit x[n])*lambda
+       -> X S <r> U <r> Z (x[n])*lambda     <r> = EXC | mean'[n] var'[n] bestval bestpt[n] miss
+          (S: cem_step on the draws z with the table (x -> fit) as oracle; U: cem_select_update on the recorded offspring;
+           Z: cem_sample of every draw; kind 0/1 = cem_noise_const a (0: a = 0), 2 = cem_noise_linear a b)
    Cholesky factors travel as full row-major n*n matrices; the model takes the list of trailing columns
    (column j = L(j,j), L(j+1,j), .., L(n-1,j)); the driver converts in both directions (zeros above the diagonal). *)
 open C11_model
@@ -148,5 +158,61 @@ let () =
         (match chol_update fops alpha beta (cols_of_full n rows) v with
          | Some c -> Printf.printf "H %s\n" (sv (full_of_cols n c))
          | None -> print_endline "H EXC")
+      | "NI" | "NS" ->
+        let n = int_of_string t.(1) in
+        let f i = fos t.(i) in
+        let p = ref 2 in
+        let vecn m = let v = List.init m (fun i -> f (!p + i)) in p := !p + m; v in
+        let soln () = let v = f !p in incr p; let pt = vecn n in (v, pt) in
+        let nxt () = let v = f !p in incr p; v in
+        let nxti () = let v = int_of_string t.(!p) in incr p; v in
+        let looked = ref [] and miss = ref 0 in
+        let oracle tbl pt =
+          looked := pt :: !looked;
+          match List.find_opt (fun (_, q) -> q = pt) tbl with
+          | Some (v, _) -> v
+          | None -> miss := 1; nan in
+        let st' =
+          if t.(0) = "NI" then begin
+            let big = nxt () in
+            let p0 = let k = nxti () in vecn k in
+            let start = vecn n in
+            let tbl = let k = nxti () in List.init k (fun _ -> soln ()) in
+            sd_init fops (oracle tbl) big p0 start
+          end else begin
+            let simplex = List.init (n + 1) (fun _ -> soln ()) in
+            let bv = nxt () in let bp = let k = nxti () in vecn k in
+            let tbl = let k = nxti () in List.init k (fun _ -> soln ()) in
+            sd_step fops (oracle tbl) { sd_simplex = simplex; sd_best = (bv, bp) }
+          end in
+        let b = Buffer.create 256 in
+        Buffer.add_string b t.(0);
+        List.iter (fun (v, pt) -> Buffer.add_string b (" " ^ pf v ^ " " ^ sv pt)) st'.sd_simplex;
+        let (bv, bp) = st'.sd_best in
+        Buffer.add_string b (Printf.sprintf " B %s %d %s L %d %d" (pf bv) (List.length bp) (sv bp) (List.length !looked) !miss);
+        List.iter (fun pt -> Buffer.add_string b (" " ^ sv pt)) (List.rev !looked);
+        print_endline (Buffer.contents b)
+      | "X" ->
+        let n = int_of_string t.(1) and lambda = int_of_string t.(2) and mu = int_of_string t.(3) in
+        let kind = int_of_string t.(4) in
+        let f i = fos t.(i) in
+        let na = f 5 and nb = f 6 in
+        let counter = int_of_string t.(7) in
+        let p = ref 8 in
+        let vecn m = let v = List.init m (fun i -> f (!p + i)) in p := !p + m; v in
+        let mean = vecn n in let var = vecn n in
+        let zs = List.init lambda (fun _ -> vecn n) in
+        let off = List.init lambda (fun _ -> let fit = f !p in incr p; let x = vecn n in (fit, x)) in
+        let noise = if kind = 2 then cem_noise_linear fops na nb else cem_noise_const fops (if kind = 0 then 0.0 else na) in
+        let miss = ref 0 in
+        let oracle pt = match List.find_opt (fun (_, q) -> q = pt) off with Some (v, _) -> v | None -> miss := 1; nan in
+        let show = function
+          | None -> "EXC"
+          | Some st -> let (bv, bp) = st.c_best in Printf.sprintf "%s %s %s %s %d" (sv st.c_mean) (sv st.c_var) (pf bv) (sv bp) !miss in
+        let st0 = { c_mean = mean; c_var = var; c_counter = nat_of_int counter; c_best = (nan, []) } in
+        let rs = show (cem_step fops oracle noise (nat_of_int n) (nat_of_int mu) st0 zs) in
+        miss := 0;
+        let ru = show (cem_select_update fops noise (nat_of_int n) (nat_of_int mu) (nat_of_int counter) off) in
+        Printf.printf "X S %s U %s Z %s\n" rs ru (String.concat " " (List.map (fun z -> sv (cem_sample fops mean var z)) zs))
       | _ -> print_endline "?"
     done with End_of_file -> ())
